@@ -45,8 +45,8 @@ func VerifH_C15_lq() {
 	produceCh := make(chan *models.Item, 4)
 	must(Start(finishCh, produceCh))
 
-	n := 1 + verifrt.Choice("outlinks-1", 2)
-	dup := n == 2 && verifrt.Choice("second-is-a-duplicate", 2) == 1
+	n := 1 + verifrt.Choice("outlinks-1", 3)
+	dup := n >= 2 && verifrt.Choice("second-is-a-duplicate", 2) == 1 // (a third outlink, if any, is new again)
 	type want struct {
 		raw, via string
 		hops     int
@@ -62,7 +62,7 @@ func VerifH_C15_lq() {
 		if !(dup && i == 1) {
 			wants = append(wants, w)
 		}
-		if verifrt.Choice("flush-between", 2) == 1 {
+		if n < 3 && verifrt.Choice("flush-between", 2) == 1 { // (three outlinks always travel in one batch)
 			verifrt.Quiesce()
 			verifrt.EnvTicksEach(1) // the 5 s flush timers fire between the two outlinks
 			if !verifrt.Symbolic() {
@@ -72,6 +72,9 @@ func VerifH_C15_lq() {
 	}
 	if dup {
 		verifrt.Cover("duplicate-outlink")
+		if n == 3 {
+			verifrt.Cover("new-outlink-after-duplicate")
+		}
 	}
 	// time passes: the flush timers fire, the queue's polling loop looks again, and the seeds come out of the reactor
 	got := map[string]*models.Item{}
